@@ -43,6 +43,20 @@ pub fn guard<T>(f: impl FnOnce() -> T) -> Option<T> {
 
 thread_local! {
     static DEPTH: std::cell::Cell<u32> = std::cell::Cell::new(0);
+    static LAST_PANIC_FILE: std::cell::RefCell<String> = std::cell::RefCell::new(String::new());
+}
+
+/// Source file of the most recent panic on this thread (as the compiler recorded it).
+pub fn last_panic_file() -> String {
+    LAST_PANIC_FILE.with(|f| f.borrow().clone())
+}
+
+/// True if the most recent panic was raised by a line of this harness (its files are compiled with
+/// paths relative to the harness crate: `src/...`), not by the crate under test or the standard
+/// library on its behalf.
+pub fn last_panic_is_internal() -> bool {
+    let f = last_panic_file();
+    f.starts_with("src/") || f.contains("/verif/harness/src/")
 }
 
 /// Panics inside `guard` are expected observations and stay silent; a panic of the harness
@@ -50,6 +64,8 @@ thread_local! {
 pub fn silence_panics() {
     let default = std::panic::take_hook();
     std::panic::set_hook(Box::new(move |info| {
+        let file = info.location().map_or(String::new(), |l| l.file().to_string());
+        LAST_PANIC_FILE.with(|f| *f.borrow_mut() = file);
         if DEPTH.with(|d| d.get()) == 0 {
             default(info);
         }
